@@ -173,7 +173,14 @@ def genC12Cases (tier : String) (seed : Nat) : Array Case := Id.run do
     "A(inspector) D(may) I(review) Bdir(records) Bdir,p{Bdir,p{E(records) F(are) P(complete)} [XOR] Bdir,p{E(records) F(are) P(audited)}}",
     "A(actor) I(act) Bind,p{Bind,p{A(a) I(b)} [OR] Bind,p{A(c) I(d)}} Bind(someone) P,p{P,p{A(e) I(f)} [AND] P,p{A(g) I(h)}} P(part)",
     "A(actor) I(act) Cac{A(a) I(b)} Cac{A(c) I(d)} Cac{A(e) I(f)} Bdir{A(g) I(h)} Bdir{A(i) I(j)}",
-    "A1(x) A1,p(p1) A1,p(p2) A1,p(p3) A2(y) A2,p(q1) A2,p(q2) I(act) A,p(shared one) A,p(shared two)"]
+    "A1(x) A1,p(p1) A1,p(p2) A1,p(p3) A2(y) A2,p(q1) A2,p(q2) I(act) A,p(shared one) A,p(shared two)",
+    -- several parenthesised groups on one level of a component, with and without operators: which group the
+    -- shared text of a combination is read from must not depend on the order a map is walked in (seeded change C12-J)
+    "A(Operators) D(must) I(report) Bdir(incidents) Cex((in writing) (within (7 days [OR] one week)))",
+    "A(x) I(y) Bdir((first) (second) (left (a [AND] b) right) (third))",
+    "A(x) I(y) Cac((one (a [OR] b)) plain (two (c [AND] d)) (three))",
+    "A(x) I(y) Bdir{A(p) I(q) Cex((in writing) (by post) (within (7 days [OR] one week) at most))}",
+    "A(x) I(y) Cex((early) (late) (before (noon [XOR] dusk)) (after (dawn [XOR] nine)))"]
   let mut k := 0
   for t in sides do
     for v in [0, 4, 28] do
